@@ -945,7 +945,7 @@ fn b_select(d: Dialect, n_items: Option<usize>) -> BoxedStrategy<SelectSpec> {
             if let Some(q) = cte {
                 s.with = Some(WithSpec {
                     recursive: false,
-                    ctes: vec![CteSpec { name: 0, cols: vec![], materialized: None, query: Box::new(q) }],
+                    ctes: vec![CteSpec { name: 0, cols: vec![], materialized: None, query: Box::new(q), derive: false }],
                     search: None,
                     cycle: None,
                 });
